@@ -64,6 +64,33 @@ pub fn esc_answer(key: &str) -> String {
     hx(Metrics::verif_escape_label(key).as_bytes())
 }
 
+/// the documented cap of the denied-keys report ("non-zero values are capped at 10,000")
+pub const DOCUMENTED_TRACKER_CAP: usize = 10_000;
+/// requested tracker sizes of the `tclamp` lines
+pub const TCLAMP_SIZES: [usize; 21] = [
+    0,
+    1,
+    2,
+    3,
+    10,
+    100,
+    300,
+    9999,
+    10_000,
+    10_001,
+    20_000,
+    1 << 31,
+    (1 << 32) - 1,
+    1 << 32,
+    (1 << 32) + 1,
+    (1 << 32) + 7,
+    (1 << 32) + 9999,
+    1 << 33,
+    1 << 40,
+    (1 << 63) + 5,
+    usize::MAX,
+];
+
 pub fn tclamp_answer(n: usize) -> String {
     let r = catch_unwind(AssertUnwindSafe(|| {
         let m = Metrics::builder().max_denied_keys(n).build();
@@ -796,8 +823,22 @@ pub fn run(seed: u64, n: usize, out: &mut Out) {
         }
         out.bump("exports_checked");
     }
-    for nn in [0usize, 1, 2, 3, 10, 100, 300, 9999, 10000, 10001, 20000, usize::MAX] {
-        out.line(format!("tclamp {nn}"), tclamp_answer(nn));
+    // requested tracker sizes: in range, just out of range, and far out of range on both sides of every power of
+    // two an intermediate integer type could have (the documented contract: 0 disables tracking, any other request
+    // is capped at 10 000).  Direct oracle next to the model line: report length = min(n, 10 000) after more distinct
+    // denied keys than that, tracking enabled iff n >= 1
+    for nn in TCLAMP_SIZES {
+        let ans = tclamp_answer(nn);
+        out.line(format!("tclamp {nn}"), ans.clone());
+        out.bump("tclamp_sizes");
+        let want = format!("{} {}", nn.min(DOCUMENTED_TRACKER_CAP), if nn >= 1 { "enabled" } else { "disabled" });
+        if ans != want {
+            out.violation(
+                "C16",
+                format!("MetricsBuilder::max_denied_keys({nn}): after {} distinct denied keys the report lists / tracking is `{ans}`, the documented contract (non-zero requests are capped at {DOCUMENTED_TRACKER_CAP}) gives `{want}`", nn.min(20000) + 5),
+                vec![format!("tclamp {nn}")],
+            );
+        }
     }
     let mut tk = TopK { out };
     let reps = (n / 50).max(1);
